@@ -29,7 +29,9 @@ DEFAULT = {"http": 80, "https": 443, "ws": 80, "wss": 443, "ftp": 21}
 
 HOSTS = [("reg", "example.com"), ("ipv4", "127.0.0.1"), ("ipv6", "[2001:db8::1]"), ("ipv6zone", "[fe80::1%eth0]"), ("idn", "é.com"), ("dot", "example.com."),
          # hosts whose last characters are the digits (and look like the text) of the ports used below
-         ("digit-tail", "srv8080"), ("ipv4-80", "10.0.80.80"), ("ipv6-80", "[::8080:80]")]
+         ("digit-tail", "srv8080"), ("ipv4-80", "10.0.80.80"), ("ipv6-80", "[::8080:80]"),
+         # the other bracketed kind (IPvFuture), with its first ':' early and late in the text, and a long IPv6 literal with a long zone
+         ("ipvfuture", "[v1.fe80::a+en1]"), ("ipvfuture-short", "[vF.a:b]"), ("ipv6-long", "[fe80:0:0:0:202:b3ff:fe1e:8329%25wlp0s20f3]")]
 UIS = [("none", ""), ("u", "u@"), ("u:", "u:@"), ("u:p", "u:p@"), (":p", ":p@"), (":", ":@"),
        # retained userinfo whose escapes must survive byte for byte: delimiters, valid and invalid UTF-8
        ("esc", "a%40b:c%3Ad%2F@"), ("latin1", "caf%E9:p%FFw@"), ("utf8", "%C3%A9:%E2%82%AC@")]
